@@ -108,6 +108,10 @@ shape!(sgr_shape_5_colon, 5, [true, true, true, true, false]);
 // a;b;c;d;e;f — 38;2;r;g;b followed by a single code / 38;5;n;48;5;m
 shape!(sgr_shape_6_semi, 6, [false, false, false, false, false, false]);
 
+// a;b;c;d;e;f;g;h;i;j — two RGB groups in one sequence (38;2;r;g;b;48;2;r;g;b): the per-sequence
+// accumulators must be reset between groups
+shape!(sgr_shape_10_semi, 10, [false, false, false, false, false, false, false, false, false, false]);
+
 /// print / execute: only printable characters and ASCII whitespace controls become text
 #[cfg_attr(kani, kani::proof, kani::unwind(6))]
 #[cfg_attr(not(kani), test)]
